@@ -64,6 +64,9 @@ pub struct GenCfg {
     pub share_link_ids: bool,
     /// Prefer staves of an already used layer whose number differs from a used one in a single bit.
     pub alias_staves: bool,
+    /// a link may carry the FEE ID of an earlier link with one reserved bit set (a different FEE ID; every RDH of it
+    /// fails the FEE ID sanity check)
+    pub reserved_bit_twin: bool,
     /// C13: readout frames to emit, in order, instead of generated conforming frames (first link
     /// only). When the plan is exhausted conforming frames follow.
     pub frame_plan: Vec<FrameSpec>,
@@ -106,6 +109,7 @@ impl GenCfg {
             free_status_bits: rng.chance(2, 3),
             share_link_ids: false,
             alias_staves: false,
+            reserved_bit_twin: false,
             frame_plan: Vec::new(),
             fill_page_words: 0,
             plan_all_links: false,
@@ -700,6 +704,13 @@ pub fn gen_conforming(cfg: &GenCfg, rng: &mut Rng) -> Stream {
                 let alias = us ^ (1 << bit);
                 if allowed && alias < 48 {
                     f = fee_id(ul, alias, rng.below(4) as u8);
+                }
+            }
+            if cfg.reserved_bit_twin && !used_fee.is_empty() && rng.chance(1, 2) {
+                let u = *rng.pick(&used_fee) & 0b0111_0011_0011_1111;
+                let t = u | (1u16 << *rng.pick(&[15u16, 11, 10, 7, 6]));
+                if !used_fee.contains(&t) {
+                    break (t, Barrel::of_layer((u >> 12) as u8 & 0x7));
                 }
             }
             // distinct (layer, stave) so that a stave filter selects one link
